@@ -52,7 +52,7 @@ Put(f, k, v) == [x \in DOMAIN f \cup {k} |-> IF x = k THEN v ELSE f[x]]
 
 Ev == Trace[l]
 
-ZeroCnt == [benter |-> 0, bfail |-> 0, refresh |-> 0, reads |-> 0, writes |-> 0, touched |-> 0]
+ZeroCnt == [benter |-> 0, bfail |-> 0, refresh |-> 0, reads |-> 0, writes |-> 0, touched |-> 0, calls |-> 0]
 
 Fresh ==
   /\ now = 0 /\ inb = <<>> /\ produced = <<>> /\ stored = <<>> /\ berrs = <<>> /\ injected = <<>>
@@ -103,6 +103,8 @@ C04(e) ==
         /\ e.v \in At(produced, e.k, {})
         /\ e.note = "hit:" \o e.v
   /\ e.ev = "panic" => FALSE
+  \* "observes the result of the last completed build": a build's result is stored under the key of its own call
+  /\ (e.ev = "beWrite" /\ e.p \in DOMAIN cellOf /\ At(built, e.p, "") = e.v) => e.k = cellOf[e.p].k
 
 C05(e) ==
   e.ev = "benter" /\ e.p \notin skipP =>
@@ -115,7 +117,10 @@ C06(e) ==
         ELSE e.ttl = (IF At(cellOf, e.p, NoCell).has THEN At(cellOf, e.p, NoCell).c ELSE 0)
   /\ e.ev = "ret" => e.ttl = (IF At(cellOf, e.p, NoCell).has THEN At(cellOf, e.p, NoCell).c ELSE 0)
   /\ e.ev = "bexit" => IF e.bg THEN e.note = "" ELSE e.note \in {"", "deadline;cancellable;"}
-  /\ (e.ev = "ret" /\ e.p \in skipP /\ e.err = "") => e.v \in At(produced, e.k, {})
+  \* "SkipRead forces a rebuild whose result is still stored": judged for a Get that ran alone (a concurrent Get may
+  \* legitimately be handed the lock owner's result, whatever that owner read).
+  /\ (e.ev = "ret" /\ e.p \in skipP /\ e.err = "" /\ cnt.calls = 1) =>
+        (At(built, e.p, "") = e.v /\ e.v \in At(stored, e.k, {}))
 
 (* C09 (Failover part): every backend access a Get (or its background     *)
 (* build) makes is for the key the caller passed, whatever the caller does  *)
@@ -161,7 +166,8 @@ Upd(e) ==
          /\ pend' = pend \cup {e.p}
          /\ skipP' = IF e.c = "skip" THEN skipP \cup {e.p} ELSE skipP
          /\ cellOf' = Put(cellOf, e.p, [has |-> e.n = 1, c |-> e.ttl, k |-> e.k])
-         /\ UNCHANGED <<cfg, now, inb, produced, stored, berrs, injected, bk, failUntil, lastRd, built, cnt>>
+         /\ cnt' = [cnt EXCEPT !.calls = @ + 1]
+         /\ UNCHANGED <<cfg, now, inb, produced, stored, berrs, injected, bk, failUntil, lastRd, built>>
     [] e.ev = "ret" ->
          /\ pend' = pend \ {e.p}
          /\ UNCHANGED <<cfg, now, inb, produced, stored, berrs, injected, bk, failUntil, skipP, cellOf, lastRd, built, cnt>>
